@@ -34,7 +34,8 @@ CONSTANTS Formats,    \* subset of AllFormats explored by this cfg
           MaxRecs,    \* max records per document
           MaxBlank,   \* extra blank lines between two records: 0..MaxBlank
           MaxExtra,   \* unrelated fields / sections level: 0..MaxExtra (<= 2)
-          FlushAtEOF  \* TRUE in every real cfg; FALSE = the classic record-loop defect (sanity)
+          FlushAtEOF, \* TRUE in every real cfg; FALSE = the classic record-loop defect (sanity)
+          Reduce      \* TRUE (quick tier): drop two layout products (comments x section policy; v2 x eol/eof) - see Layouts
 
 AllFormats == {"dpkg", "apk", "requirements", "gomod", "cargolock", "packagelock", "composerlock",
                "gemfilelock", "gradlelockfile", "poetrylock", "pipfilelock", "packageslockjson"}
@@ -55,46 +56,47 @@ IdV == <<1, 2, 3, 1, 2, 4, 5>>
 \* multiver  the same name may be listed with two versions
 \* keyed     records of one section are keys of one map (same name twice in a section impossible)
 \* sects     number of sections records can be distributed over
+\* nested    the "second section" is "inside another record" (npm: node_modules of a package)
 \* variants  format versions
 \* stanza    records are multi-line stanzas separated by blank lines
 AllTrail == {"none", "nl", "blank"}
 Cap(f) ==
   CASE f = "dpkg" ->
          [crlf |-> FALSE, trailing |-> {"nl", "blank"}, comments |-> {"none"}, notinst |-> TRUE,
-          multiver |-> FALSE, keyed |-> FALSE, sects |-> 1, variants |-> {"-"}, stanza |-> TRUE]
+          multiver |-> FALSE, keyed |-> FALSE, sects |-> 1, variants |-> {"-"}, stanza |-> TRUE, nested |-> FALSE]
     [] f = "apk" ->
          [crlf |-> FALSE, trailing |-> {"nl", "blank"}, comments |-> {"none"}, notinst |-> FALSE,
-          multiver |-> FALSE, keyed |-> FALSE, sects |-> 1, variants |-> {"-"}, stanza |-> TRUE]
+          multiver |-> FALSE, keyed |-> FALSE, sects |-> 1, variants |-> {"-"}, stanza |-> TRUE, nested |-> FALSE]
     [] f = "requirements" ->
          [crlf |-> TRUE, trailing |-> AllTrail, comments |-> {"none", "line", "inline"}, notinst |-> FALSE,
-          multiver |-> FALSE, keyed |-> FALSE, sects |-> 2, variants |-> {"-"}, stanza |-> FALSE]
+          multiver |-> FALSE, keyed |-> FALSE, sects |-> 2, variants |-> {"-"}, stanza |-> FALSE, nested |-> FALSE]
     [] f = "gomod" ->
          [crlf |-> TRUE, trailing |-> AllTrail, comments |-> {"none", "line", "inline"}, notinst |-> FALSE,
-          multiver |-> FALSE, keyed |-> FALSE, sects |-> 2, variants |-> {"-"}, stanza |-> FALSE]
+          multiver |-> FALSE, keyed |-> FALSE, sects |-> 2, variants |-> {"-"}, stanza |-> FALSE, nested |-> FALSE]
     [] f = "cargolock" ->
          [crlf |-> TRUE, trailing |-> AllTrail, comments |-> {"none", "line", "inline"}, notinst |-> FALSE,
-          multiver |-> TRUE, keyed |-> FALSE, sects |-> 1, variants |-> {"-"}, stanza |-> FALSE]
+          multiver |-> TRUE, keyed |-> FALSE, sects |-> 1, variants |-> {"-"}, stanza |-> FALSE, nested |-> FALSE]
     [] f = "packagelock" ->
          [crlf |-> TRUE, trailing |-> AllTrail, comments |-> {"none"}, notinst |-> FALSE,
-          multiver |-> TRUE, keyed |-> TRUE, sects |-> 2, variants |-> {"v1", "v2", "v3"}, stanza |-> FALSE]
+          multiver |-> TRUE, keyed |-> TRUE, sects |-> 2, variants |-> {"v1", "v2", "v3"}, stanza |-> FALSE, nested |-> TRUE]
     [] f = "composerlock" ->
          [crlf |-> TRUE, trailing |-> AllTrail, comments |-> {"none"}, notinst |-> FALSE,
-          multiver |-> FALSE, keyed |-> FALSE, sects |-> 2, variants |-> {"-"}, stanza |-> FALSE]
+          multiver |-> FALSE, keyed |-> FALSE, sects |-> 2, variants |-> {"-"}, stanza |-> FALSE, nested |-> FALSE]
     [] f = "gemfilelock" ->
          [crlf |-> TRUE, trailing |-> AllTrail, comments |-> {"none"}, notinst |-> FALSE,
-          multiver |-> FALSE, keyed |-> FALSE, sects |-> 2, variants |-> {"-"}, stanza |-> FALSE]
+          multiver |-> FALSE, keyed |-> FALSE, sects |-> 2, variants |-> {"-"}, stanza |-> FALSE, nested |-> FALSE]
     [] f = "gradlelockfile" ->
          [crlf |-> TRUE, trailing |-> AllTrail, comments |-> {"none", "line"}, notinst |-> FALSE,
-          multiver |-> TRUE, keyed |-> FALSE, sects |-> 1, variants |-> {"-"}, stanza |-> FALSE]
+          multiver |-> TRUE, keyed |-> FALSE, sects |-> 1, variants |-> {"-"}, stanza |-> FALSE, nested |-> FALSE]
     [] f = "poetrylock" ->
          [crlf |-> TRUE, trailing |-> AllTrail, comments |-> {"none", "line", "inline"}, notinst |-> FALSE,
-          multiver |-> TRUE, keyed |-> FALSE, sects |-> 1, variants |-> {"-"}, stanza |-> FALSE]
+          multiver |-> TRUE, keyed |-> FALSE, sects |-> 1, variants |-> {"-"}, stanza |-> FALSE, nested |-> FALSE]
     [] f = "pipfilelock" ->
          [crlf |-> TRUE, trailing |-> AllTrail, comments |-> {"none"}, notinst |-> FALSE,
-          multiver |-> FALSE, keyed |-> TRUE, sects |-> 2, variants |-> {"-"}, stanza |-> FALSE]
+          multiver |-> FALSE, keyed |-> TRUE, sects |-> 2, variants |-> {"-"}, stanza |-> FALSE, nested |-> FALSE]
     [] f = "packageslockjson" ->
          [crlf |-> TRUE, trailing |-> AllTrail, comments |-> {"none"}, notinst |-> FALSE,
-          multiver |-> FALSE, keyed |-> TRUE, sects |-> 2, variants |-> {"-"}, stanza |-> FALSE]
+          multiver |-> FALSE, keyed |-> TRUE, sects |-> 2, variants |-> {"-"}, stanza |-> FALSE, nested |-> FALSE]
 
 -----------------------------------------------------------------------------
 VARIABLES fmt,      \* the format of the document
@@ -112,9 +114,13 @@ NoLayout == [eol |-> "LF", trailing |-> "nl", blank |-> 0, comments |-> "none", 
 \*   s = 1  even positions go to the second section (for nested formats: under the preceding record)
 \*   s = 2  positions >= 2 go to the second section (nested formats: all under record 1), and the
 \*          second section is written *before* the first where the format leaves the order free
+\*   s = 3  every record is in the second section, the first one is empty or absent
+\*          (nested formats: a chain, record k inside record k-1)
 Place(k, s) == IF s = 0 THEN 0
                ELSE IF s = 1 THEN (IF k % 2 = 0 THEN k - 1 ELSE 0)
-               ELSE (IF k >= 2 THEN 1 ELSE 0)
+               ELSE IF s = 2 THEN (IF k >= 2 THEN 1 ELSE 0)
+               ELSE k - 1
+InSecond(k, s) == IF s = 3 THEN TRUE ELSE Place(k, s) # 0
 
 \* in keyed formats the names inside one section/parent are unique and a package is not nested in itself
 KeyClash(rs, s) ==
@@ -130,9 +136,13 @@ Layouts(f, rs) ==
           blank : IF len >= 2 THEN 0..MaxBlank ELSE {0},
           comments : c.comments,
           extra : 0..MaxExtra,
-          sect : IF c.sects = 1 \/ len < 2 THEN {0} ELSE 0..2,
+          sect : IF c.sects = 1 THEN {0}
+                 ELSE {0} \cup (IF len >= 2 THEN {1, 2} ELSE {})
+                          \cup (IF (c.nested /\ len >= 3) \/ (~c.nested /\ len >= 1) THEN {3} ELSE {}),
           variant : c.variants] :
-     c.keyed => ~KeyClash(rs, l.sect)}
+     /\ c.nested => ~KeyClash(rs, l.sect)
+     /\ Reduce => /\ l.comments # "none" => l.sect = 0
+                  /\ l.variant = "v2" => l.eol = "LF" /\ l.trailing = "nl"}
 
 -----------------------------------------------------------------------------
 (* ---- declarative: what must be reported ---- *)
@@ -195,7 +205,7 @@ Extract == /\ phase = "laid"
 
 Next == \/ \E i \in 1..NIds, inst \in BOOLEAN : AddRecord(i, inst)
         \/ Close
-        \/ \E l \in Layouts(fmt, recs) : ChooseLayout(l)
+        \/ (phase = "closed" /\ \E l \in Layouts(fmt, recs) : ChooseLayout(l))   \* guard first: the set is large
         \/ Extract
 Spec == Init /\ [][Next]_vars
 
